@@ -44,6 +44,19 @@ class Decider:
             s.add(c)
         t0 = time.time()
         r = s.check()
+        if r == z3.unknown:
+            # second opinion: other seed, three times the budget
+            s2 = z3.Solver()
+            s2.set('timeout', self.timeout_ms * 3)
+            s2.set('random_seed', self.seed + 17)
+            for a in self.axioms():
+                s2.add(a)
+            for c in constraints:
+                s2.add(c)
+            r = s2.check()
+            if r != z3.unknown:
+                s = s2
+            self.retries = getattr(self, 'retries', 0) + 1
         dt = time.time() - t0
         self.n += 1
         self.t += dt
